@@ -10,6 +10,9 @@ from ..core import HarnessError, StepBudget
 ID = 'C10'
 TITLE = 'drange enumerates t0, t0+bump, ... up to t1'
 LEVEL = 'exploration'
+TECHNIQUE = 'runtime monitoring: iterate-and-compare oracle + monotonicity/maximality/agreement laws + line-step budget on drange and dateutil.rrule._iter + result-freshness check'
+LEVEL_TEXT = 'Held on the (start, span, bump) triples explored for every bump kind and direction. A check says held on K observed executions, never verified.'
+LEVEL_NOTE = 'Trusted: period strings are iterated with the real dt_bump (validated by C09); period-string endpoints carry no microseconds.'
 RULE = ('random (t0, span, bump): starts anywhere in 1950-2100, spans 0..3 years in either direction, bumps among ints, timedeltas (incl. intraday), single period strings with every '
         'unit letter and sign, business-day strings kb, compound strings, and bumps pointing away from t1; non-trivial = backward range, or |step| > 1, or compound bump; distinct = canonical hash')
 ASSUMPTIONS = ['zero-length bumps are outside the quantifier and not generated', 'endpoints are whole days apart for int and b bumps, midnight and day<=28 for month-based units',
